@@ -296,6 +296,10 @@ func (vt *Model) decrqm(pd int) {
 		case false:
 			ps = 2
 		}
+	case 2027:
+		// Graphemes are always clustered and measured as clusters: report
+		// the mode as set so that applications measure the same way
+		ps = 1
 	}
 	fmt.Fprintf(vt.pty, "\x1B[?%d;%d$y", pd, ps)
 }
